@@ -146,3 +146,18 @@ def exec_region_natively(target, region, env):
     code = compile(ast.fix_missing_locations(ast.Module(body=body, type_ignores=[])), mi.relpath, "exec")
     exec(code, g)
     return g
+
+
+def loop_key(target, ordinal=1, kind="for"):
+    """'for:<iter text>' / 'while:<test text>' of the ordinal-th loop (source order) of a
+    function in the CURRENT sources - used by contracts so that the key never has to be typed"""
+    import ast
+
+    from .world import World
+
+    w = World()
+    _mi, node, _ = w.locate(target)
+    loops = [n for n in ast.walk(node) if isinstance(n, ast.For if kind == "for" else ast.While)]
+    loops.sort(key=lambda n: (n.lineno, n.col_offset))
+    n = loops[ordinal - 1]
+    return ("for:" + ast.unparse(n.iter)) if kind == "for" else ("while:" + ast.unparse(n.test))
